@@ -41,6 +41,8 @@ func registerIntrinsics(p *Program) {
 	registerEnv(p)
 	registerMisc(p)
 	registerRegen(p)
+	registerData(p)
+	registerIntertx(p)
 }
 
 func (x *Exec) constStr(v Value, what string) string {
@@ -147,6 +149,14 @@ func (x *Exec) zzverif(name string, c *CallCtx) Value {
 			return SliceV{Arr: x.newObj(ArrayV{nil}, "bytes"), Len: 0, Cap: 0}
 		}
 		return x.mkSlice(es)
+	case "B58String":
+		// a base58check string with the given payload and version (see intr_data.go)
+		in := a[0].(SliceV)
+		out := []*smt.Term{B.Add(a[1].(IntV).T, B.Int(b58Version))}
+		for _, e := range x.sliceElems(in) {
+			out = append(out, B.Add(e.(IntV).T, B.Int(b58Payload)))
+		}
+		return StrV{Bytes: out}
 	case "NondetInto":
 		label := x.constStr(a[0], "label")
 		iv, ok := a[1].(IfaceV)
@@ -178,6 +188,16 @@ func (x *Exec) zzverif(name string, c *CallCtx) Value {
 		return BoolV{B.Not(a[0].(BoolV).T)}
 	case "Implies":
 		return BoolV{B.Implies(a[0].(BoolV).T, a[1].(BoolV).T)}
+	case "AssumeRange":
+		// an assumption lo <= v <= hi that is also recorded as the term's interval
+		t := a[0].(IntV).T
+		lo, _ := a[1].(IntV).T.ConstInt64()
+		hi, _ := a[2].(IntV).T.ConstInt64()
+		x.setBounds(t, lo, hi, "harness range assumption @"+c.Pos())
+		return nil
+	case "MergeCallee":
+		x.localMerge[x.constStr(a[0], "function name")] = true
+		return nil
 	case "Merged":
 		f, ok := unwrapIface(a[0]).(FuncV)
 		if !ok || f.Fn == nil {
@@ -190,6 +210,12 @@ func (x *Exec) zzverif(name string, c *CallCtx) Value {
 		return BoolV{x.stringEq(a[0].(StrV), a[1].(StrV))}
 	case "BytesEq":
 		return BoolV{x.bytesEq(a[0], a[1])}
+	case "ErrIsNil":
+		if ce, ok := a[0].(CondErrV); ok {
+			return BoolV{B.Not(ce.Cond)}
+		}
+		n, _ := isNilValue(a[0])
+		return BoolV{B.Bool(n)}
 	case "IsNilErr":
 		n, _ := isNilValue(a[0])
 		return BoolV{B.Bool(n)}
@@ -207,6 +233,9 @@ func (x *Exec) zzverif(name string, c *CallCtx) Value {
 		return v
 	}
 	if v, ok := x.zzverifEnv(name, c); ok {
+		return v
+	}
+	if v, ok := x.zzverifStub(name, c); ok {
 		return v
 	}
 	x.Unsupported("unknown zzverif primitive %s", name)
